@@ -298,7 +298,39 @@ def run_history(ctx, hist, hashed):
         # ---- C05 monitor: latest causal publisher wins
         check_latest(ctx, hist, t, in_ctx)
     cfg.CONF.clear_override('hash_version_keys', group='context_versioning')
+    tie_history(ctx, drv, hist, causal, inb, outb)
     return inb
+
+
+def tie_history(ctx, drv, hist, causal, inb, outb):
+    """Stream `hist`: the tie of Model/Hist.lean (the run the causal theorems are about).  The Lean run of the
+    WHOLE history (parents in the listed order) must reproduce the inbound and the outbound context the real
+    functions computed for every task, and the causal ancestors; and the decidable hypothesis of the theorems
+    (shape-stable republication at a leaf path, `StableHist`) as evaluated by Lean must be what the monitor
+    reads off the history."""
+    idx = {t['name']: i for i, t in enumerate(hist)}
+    tasks = [{'parents': [idx[p] for p in t['parents']], 'published': t['published']} for t in hist]
+    rows = drv.call('ctx.run', {'tasks': tasks})
+    for t, row in zip(hist, rows):
+        real = {'in': canon_ctx(inb[t['name']] or {}), 'out': canon_ctx(outb[t['name']]),
+                'anc': sorted(idx[a] for a in causal.anc[t['name']])}
+        model = {'in': row['in'], 'out': row['out'], 'anc': sorted(set(row['anc']))}
+        ctx.evaluated('hist', [tasks[:idx[t['name']] + 1]], nontrivial=len(t['parents']) >= 2 or bool(t['published']))
+        if norm(model) != norm(real):
+            ctx.disagree('hist', {'fn': 'run', 'history': hist, 'task': t['name']}, model, real)
+    paths = set()
+    for t in hist:
+        for v in causal.leaves[t['name']]:
+            paths |= set(causal.leaves[t['name']][v])
+    for p in sorted(paths):
+        mine = all(p in causal.leaves[t['name']][p[0]] for t in hist if p[0] in t['published']) and \
+            not any('.'.join(q) == '.'.join(p) and q != p for t in hist for v in causal.leaves[t['name']]
+                    for q in causal.leaves[t['name']][v])
+        lean = drv.call('ctx.stable', {'tasks': tasks, 'var': p[0], 'rest': list(p[1:])})
+        ctx.evaluated('hist', ['stable', tasks, list(p)], nontrivial=True)
+        ctx.count('hist', 'path:%s' % ('shape-stable(theorem applies)' if lean else 'republished-with-another-shape'))
+        if bool(lean) != bool(mine):
+            ctx.disagree('hist', {'fn': 'stable', 'history': hist, 'path': list(p)}, lean, mine)
 
 
 def run_chunk(ctx, n_histories):
@@ -308,11 +340,71 @@ def run_chunk(ctx, n_histories):
         ctx.count('ctx', 'hashed-version-keys' if hashed else 'plain-version-keys')
         hist = gen_history(rng)
         inb = run_history(ctx, hist, hashed)
+        tie_lookup(ctx, rng, inb[hist[-1]['name']])
         if rng.random() < 0.01:
             ctx.sample({'stream': 'ctx', 'history': hist, 'final_in': inb[hist[-1]['name']]})
 
 
+def tie_lookup(ctx, rng, in_ctx):
+    """the REAL ContextView over (inbound context, environment, workflow context = vars, input) vs
+    Ctx.viewLookup: the value comes from the first layer that has the key ("falling back to workflow input,
+    vars and environment"); and the view never modifies its layers"""
+    from harness import boot
+    boot.boot()
+    from mistral.workflow import data_flow
+    drv = ctx.driver()
+    pool = VARS + ['x', 'w0']
+
+    def layer():
+        return {k: copy.deepcopy(rng.choice(VALS)) for k in rng.sample(pool, rng.randint(0, 3))}
+    layers = [{k: v for k, v in (in_ctx or {}).items() if k != '__versions'}, {'__env': layer()}, layer(), layer()]
+    before = copy.deepcopy(layers)
+    view = data_flow.ContextView(*layers)
+    for k in pool + ['__env']:
+        try:
+            real = {'found': view[k]}
+        except KeyError:
+            real = 'KeyError'
+        if (k in view) != (real != 'KeyError') or view.get(k, '<d>') != (real['found'] if real != 'KeyError' else '<d>'):
+            ctx.violation('ContextView.__contains__/get disagree with __getitem__', {'layers': layers, 'key': k},
+                          {'kind': 'context-view-inconsistent'})
+        # statement monitor: "falling back to workflow input, vars and environment" - the value is the one of
+        # the FIRST of (inbound context, environment, workflow context, input) that has the variable
+        first = next((d for d in before if k in d), None)
+        exp = 'KeyError' if first is None else {'found': first[k]}
+        if norm(exp) != norm(real):
+            ctx.violation('ContextView lookup of %r does not return the value of the first layer that has it' % k,
+                          {'lookup': True, 'layers': before, 'key': k, 'expected': exp, 'got': real},
+                          {'kind': 'lookup-priority'})
+        mo = drv.call('ctx.lookup', {'layers': layers, 'key': k})
+        ctx.evaluated('lookup', [layers, k], nontrivial=sum(1 for d in layers if k in d) >= 2)
+        ctx.count('lookup', 'found-in-layer:%s' % next((i for i, d in enumerate(layers) if k in d), 'none'))
+        if norm(mo) != norm(real):
+            ctx.disagree('lookup', {'layers': layers, 'key': k}, mo, real)
+    if layers != before:
+        ctx.violation('ContextView modified a layer', {'layers': before}, {'kind': 'stored-context-mutated', 'fn': 'ContextView'})
+
+
+def replay_lookup(ctx, rep):
+    from harness import boot
+    boot.boot()
+    from mistral.workflow import data_flow
+    layers, k = rep['layers'], rep['key']
+    view = data_flow.ContextView(*copy.deepcopy(layers))
+    try:
+        real = {'found': view[k]}
+    except KeyError:
+        real = 'KeyError'
+    first = next((d for d in layers if k in d), None)
+    exp = 'KeyError' if first is None else {'found': first[k]}
+    if norm(exp) != norm(real):
+        ctx.violation('ContextView lookup of %r does not return the value of the first layer that has it' % k,
+                      dict(rep, got=real), {'kind': 'lookup-priority'})
+
+
 def replay(ctx, rep):
+    if rep.get('lookup'):
+        return replay_lookup(ctx, rep)
     hist = rep['history']
     run_history(ctx, [{k: v for k, v in t.items() if k != 'hashed'} for t in hist], hist[0].get('hashed', True))
 
@@ -388,7 +480,10 @@ def check_latest(ctx, hist, t, in_ctx):
         ctx.count('ctx', 'latest-checked')
         if norm(got) != norm(exp):
             # nested dict values merge key-wise by design only when both sides are dicts
-            sig = ({'kind': 'versioning-value-shape-change'} if shape_change(hist) else {'kind': 'stale-value'})
+            # (finding G is about MERGES: with no join at or above the task a wrong value is never G)
+            merged = any(len(by[a]['parents']) >= 2 for a in anc | {t['name']})
+            sig = ({'kind': 'versioning-value-shape-change'} if shape_change(hist) and merged
+                   else {'kind': 'stale-value'})
             ctx.violation('a task does not see the value of the causally latest publisher',
                           {'history': hist, 'task': t['name'], 'var': v, 'expected': exp, 'got': got}, sig)
 
@@ -474,6 +569,8 @@ def hist_class(hist, causal):
 def check_leaves(ctx, stream, causal, tname, data, replay, inputs=None):
     anc = causal.anc[tname]
     data = data or {}
+    # finding G is about MERGES: with no join at or above the task no deviation is ever classified as G
+    merged = any(len(causal.by[a]['parents']) >= 2 for a in anc | {tname})
     by_var = {}
     for a in anc:
         for v in causal.leaves[a]:
@@ -508,7 +605,7 @@ def check_leaves(ctx, stream, causal, tname, data, replay, inputs=None):
                             for d in SC for q in P)
                     what = ('task %s sees %s = %r, the copy of %s, although %s published it causally later'
                             % (tname, '.'.join(p), x, cands, M))
-                    sig = {'kind': 'versioning-value-shape-change'} if g else {'kind': 'stale-leaf-value'}
+                    sig = {'kind': 'versioning-value-shape-change'} if g and merged else {'kind': 'stale-leaf-value'}
             else:
                 if not SC:
                     what = ('every causal predecessor of %s that publishes %s publishes the leaf %s, yet it is '
@@ -519,7 +616,7 @@ def check_leaves(ctx, stream, causal, tname, data, replay, inputs=None):
                 else:
                     what = ('leaf %s is not visible to %s (%s) although %s published it after every '
                             'republication of another shape' % ('.'.join(p), tname, kind, M))
-                    sig = {'kind': 'versioning-value-shape-change'}
+                    sig = {'kind': 'versioning-value-shape-change'} if merged else {'kind': 'leaf-lost'}
             ctx.count(stream, 'leaf-monitor-hit:' + sig['kind'])
             ctx.violation(what, dict(replay, leaf=list(p), visible=[kind, x], publishers=sorted(P),
                                      maximal=sorted(M), other_shape=sorted(SC)), sig)
